@@ -146,6 +146,9 @@ func funcNud(p *parser, t *token) *token {
 }
 
 func returnNud(p *parser, t *token) *token {
+	if p.Token.Pos.Line != t.Pos.Line {
+		return t // a bare return ends at the line break; results start on the line of the keyword
+	}
 	for p.Token.Symbol != "}" && p.Token.Symbol != ";" && p.Token.Symbol != "case" && p.Token.Symbol != "default" {
 		t.Append(p.Expression(commaBP))
 		if p.Token.Symbol != "," {
